@@ -35,367 +35,6 @@ theorem fields_noNul {β : Type} {T : Tables} {C : BodyCodec β} {na : Char → 
       subst h1
       exact hsig sg hc
 
-theorem built_valid {β : Type} {T : Tables} (hT : T.OK) {C : BodyCodec β} {na : Char → Bool} {maxLen : Nat}
-    {st st' : St} {c : Call β} {m : Msg β} {sm : SpecMsg} (hb : Built T C na maxLen st st' c m sm)
-    (hsig : SigNoNul c) (hs : 1 ≤ st.nextSerial) :
-    sm.encodable = true ∧
-      (maxLen ≤ Spec.maxMessage → (Spec.fieldArray sm).length ≤ Spec.maxArray → sm.valid = true) := by
-  have hwf := hb.wf (fields_noNul hb hsig)
-  have heq := hb.smEq
-  have hmt : sm.mtype = T.messageType c.pre.cls := by rw [heq]; rfl
-  have hfl : sm.flags = flagsByte c.pre.expectReply c.pre.autoStart := by rw [heq]; rfl
-  have hse : sm.serial = st.nextSerial := by rw [heq]; rfl
-  have hbo : sm.body = m.rawBody := by rw [heq]; rfl
-  have h4 := flagsByte_lt c.pre.expectReply c.pre.autoStart
-  obtain ⟨m1, m2, _⟩ := hT.mtype c.pre.cls
-  refine ⟨?_, ?_⟩
-  · simp only [SpecMsg.encodable, Bool.and_eq_true, decide_eq_true_eq]
-    refine ⟨⟨⟨⟨⟨by omega, by omega⟩, by rw [hse]; exact hb.serialLt⟩, by rw [hbo]; exact hb.bodyLt⟩, hb.arrayLt⟩, hwf⟩
-  · intro hmax harr
-    simp only [SpecMsg.valid, Bool.and_eq_true, decide_eq_true_eq]
-    refine ⟨⟨⟨⟨⟨⟨by omega, by omega⟩, by omega⟩, ⟨by omega, by rw [hse]; exact hb.serialLt⟩⟩, hwf⟩, harr⟩, ?_⟩
-    rw [← hb.raw]
-    exact Nat.le_trans hb.len hmax
-
-/-- T1. -/
-theorem marshal_wellformed {β : Type} (T : Tables) (hT : T.OK) (C : BodyCodec β) (na : Char → Bool) (maxLen : Nat)
-    (hmax : maxLen ≤ Spec.maxMessage) (st st' : St) (c : Call β) (m : Msg β)
-    (hs : 1 ≤ st.nextSerial) (hsig : SigNoNul c)
-    (h : construct T C na maxLen st c = (st', .ok m)) :
-    ∃ sm : SpecMsg, m.toSpec T = some sm ∧
-      m.raw = Spec.fixedPart sm (Spec.fieldArray sm).length ++ Spec.fieldArray sm ++ Spec.headerPad sm ++ m.rawBody ∧
-      m.rawHeader = Spec.fixedPart sm (Spec.fieldArray sm).length ++ Spec.fieldArray sm ∧
-      m.rawPadding = Spec.headerPad sm ∧
-      (Spec.fixedPart sm (Spec.fieldArray sm).length).length = 16 ∧
-      (m.rawHeader ++ m.rawPadding).length % 8 = 0 ∧
-      m.rawPadding.length < 8 ∧ (∀ b ∈ m.rawPadding, b = 0) ∧
-      Spec.fixedPart sm (Spec.fieldArray sm).length =
-        [108, UInt8.ofNat (T.messageType m.cls), UInt8.ofNat (flagsByte m.expectReply m.autoStart), 1]
-          ++ encUInt .little 4 m.rawBody.length ++ encUInt .little 4 m.serial
-          ++ encUInt .little 4 (Spec.fieldArray sm).length ∧
-      T.messageType m.cls < 256 ∧ m.rawBody.length < 4294967296 ∧ (Spec.fieldArray sm).length < 4294967296 ∧
-      m.serial = st.nextSerial ∧ m.serial ≠ 0 ∧ m.serial < 4294967296 ∧ st'.nextSerial = st.nextSerial + 1 ∧
-      sm.fields.map (·.1) = (liveEntries m.attrs (T.entries m.cls (hasFds m))).map (·.2.1) ∧
-      (sm.fields.map (·.1)).Nodup ∧ sm.fields.all Field.wf = true ∧
-      m.raw.length ≤ maxLen ∧
-      ((Spec.fieldArray sm).length ≤ Spec.maxArray → Spec.decodeMsg m.raw = some sm) := by
-  obtain ⟨sm, hb⟩ := construct_ok T hT C na maxLen st st' c m h
-  obtain ⟨henc, hval⟩ := built_valid hT hb hsig hs
-  have heq := hb.smEq
-  have hbo : sm.body = m.rawBody := by rw [heq]; rfl
-  have hpadlen : (Spec.headerPad sm).length = padLen 8 (16 + (Spec.fieldArray sm).length) := Spec.headerPad_length sm
-  have hfix := Spec.fixedPart_length sm (Spec.fieldArray sm).length
-  obtain ⟨m1, m2, _⟩ := hT.mtype m.cls
-  have hcodes : sm.fields.map (·.1) = (liveEntries m.attrs (T.entries m.cls (hasFds m))).map (·.2.1) := by
-    have := congrArg (List.map Prod.fst) (hb.fieldsPy none)
-    simpa [List.map_map, Function.comp_def] using this
-  refine ⟨sm, hb.spec, ?_, hb.hdr, hb.pad, hfix, ?_, ?_, ?_, ?_, by omega, hb.bodyLt, hb.arrayLt, hb.serial, ?_, ?_, hb.next,
-    hcodes, ?_, hb.wf (fields_noNul hb hsig), hb.len, ?_⟩
-  · rw [hb.raw, ← hbo]; simp [Spec.encodeMsg]
-  · rw [hb.hdr, hb.pad]
-    simp only [List.length_append, hfix, hpadlen]
-    exact padLen_aligned 8 _ (by omega)
-  · rw [hb.pad, hpadlen]; exact padLen_lt 8 _ (by omega)
-  · intro b hbm
-    rw [hb.pad] at hbm
-    simp only [Spec.headerPad, zeros, List.mem_replicate] at hbm
-    exact hbm.2
-  · rw [heq]
-    simp [Spec.fixedPart, specOf, Spec.endianByte, Spec.version, hb.cls, hb.er, hb.as_, hb.serial]
-  · rw [hb.serial]; omega
-  · rw [hb.serial]; exact hb.serialLt
-  · rw [hcodes]
-    have hnd := hT.nodupCodes m.cls
-    have hsub : List.Sublist ((liveEntries m.attrs (T.entries m.cls (hasFds m))).map (·.2.1))
-        ((T.entries m.cls true).map (·.2.1)) := by
-      apply List.Sublist.map
-      apply List.Sublist.trans (List.filter_sublist)
-      cases hasFds m with
-      | true => exact List.Sublist.refl _
-      | false => simp only [Tables.entries]; exact List.sublist_append_left _ _
-    exact hsub.nodup hnd
-  · intro harr
-    rw [hb.raw]
-    exact Spec.decodeMsg_encodeMsg sm (hval hmax harr)
-
-
-/-- The header fields of a constructed message address every attribute that is set, through the table. -/
-theorem built_inTable {β : Type} {T : Tables} (hT : T.OK) {C : BodyCodec β} {na : Char → Bool} {maxLen : Nat}
-    {st st' : St} {c : Call β} {m : Msg β} {sm : SpecMsg} (hb : Built T C na maxLen st st' c m sm) :
-    ∀ a, m.attrs a ≠ .none → ∃ ent ∈ T.entries m.cls (hasFds m), ent.1 = a := by
-  intro a hne
-  by_cases ha : a = .unixFds
-  · subst ha
-    have hf : hasFds m = true := by
-      simp only [hasFds, Bool.not_eq_true']
-      cases h : isNone (m.attrs .unixFds) with
-      | false => rfl
-      | true => exact absurd ((isNone_iff _).mp h) hne
-    rw [hf]
-    exact ⟨T.unixFdsEntry, by simp [Tables.entries], hT.fdsEntry.1⟩
-  · rw [hb.attrs a ha] at hne
-    have hin := (Call.preOK c).inTable a hne
-    have hcov := hT.covers c.pre.cls a hin
-    rw [List.mem_map] at hcov
-    obtain ⟨ent, he1, he2⟩ := hcov
-    refine ⟨ent, ?_, he2⟩
-    rw [hb.cls]
-    simp only [Tables.entries]
-    split
-    · exact List.mem_append_left _ he1
-    · exact he1
-
-/-- The signature of a constructed message was marshalled as a SIGNATURE: at most 255 characters. -/
-theorem built_sigLen {β : Type} {T : Tables} (hT : T.OK) {C : BodyCodec β} {na : Char → Bool} {maxLen : Nat}
-    {st st' : St} {c : Call β} {m : Msg β} {sm : SpecMsg} (hb : Built T C na maxLen st st' c m sm)
-    (sg : List Char) (hsg : m.attrs .signature = .str .plain sg) (hwf : sm.fields.all Field.wf = true) :
-    sg.length < 256 := by
-  have hne : m.attrs .signature ≠ .none := by rw [hsg]; intro h; cases h
-  obtain ⟨ent, he1, he2⟩ := built_inTable hT hb .signature hne
-  have hspec := hb.spec
-  simp only [Msg.toSpec] at hspec
-  cases hfs : specFieldsOf m.attrs (T.entries m.cls (hasFds m)) with
-  | none => rw [hfs] at hspec; cases hspec
-  | some fs =>
-    rw [hfs] at hspec
-    simp only [Option.map_some, Option.some.injEq] at hspec
-    have hfields : sm.fields = fs := by rw [← hspec]
-    obtain ⟨f, hf, w, _, hw, hh⟩ := specFieldsOf_has m.attrs _ fs hfs ent he1 (by rw [he2]; exact hne)
-    rw [he2, hsg] at hw
-    simp only [wrapAttr, toStrCls, Except.ok.injEq] at hw
-    subst hw
-    simp only [hvalOf, Option.some.injEq] at hh
-    rw [hfields] at hwf
-    have := List.all_eq_true.mp hwf f hf
-    simp only [Field.wf, Bool.and_eq_true, decide_eq_true_eq] at this
-    rw [← hh] at this
-    simp only [HVal.wf, if_true, Bool.and_eq_true, decide_eq_true_eq] at this
-    exact this.2.2.2
-
-/-- T3. -/
-theorem parse_marshal {β : Type} (T : Tables) (hT : T.OK) (C : BodyCodec β) (na : Char → Bool) (maxLen : Nat)
-    (st st' : St) (c : Call β) (m : Msg β) (hs : 1 ≤ st.nextSerial) (hsig : SigNoNul c)
-    (h : construct T C na maxLen st c = (st', .ok m))
-    (fdsAfter : Option (List PyVal)) (decoded : β)
-    (hC : ∀ sg, m.attrs .signature = .str .plain sg → sg ≠ [] →
-        ∃ bytes, C.marshal sg m.body c.oob = .ok (bytes, fdsAfter) ∧ C.unmarshal sg bytes true fdsAfter = .ok decoded) :
-    ∃ m' : Msg β, parseMessage T C m.raw fdsAfter = .ok m' ∧
-      m'.cls = m.cls ∧ m'.serial = m.serial ∧ m'.expectReply = m.expectReply ∧ m'.autoStart = m.autoStart ∧
-      (∀ a, m'.attrs a = plain (m.attrs a)) ∧
-      m'.body = (if truthy (m.attrs .signature) then some decoded else none) ∧
-      m'.rawHeader = m.rawHeader ∧ m'.rawPadding = m.rawPadding ∧ m'.rawBody = m.rawBody := by
-  obtain ⟨sm, hb⟩ := construct_ok T hT C na maxLen st st' c m h
-  obtain ⟨henc, _⟩ := built_valid hT hb hsig hs
-  have heq := hb.smEq
-  have hmt : sm.mtype = T.messageType m.cls := by rw [heq, hb.cls]; rfl
-  have hfl : sm.flags = flagsByte m.expectReply m.autoStart := by rw [heq, hb.er, hb.as_]; rfl
-  have hse : sm.serial = m.serial := by rw [heq, hb.serial]; rfl
-  have hbo : sm.body = m.rawBody := by rw [heq]; rfl
-  have hen : sm.endian = .little := by rw [heq]; rfl
-  have hcls : lookupClass T sm.mtype = some m.cls := by rw [hmt]; exact (hT.mtype m.cls).2.2
-  -- no field of an own message is of type `h`
-  have hnoh : ∀ f ∈ sm.fields, f.2.ty = .h → fdsAfter ≠ none := by
-    intro f hf hty
-    exfalso
-    have hwf := hb.wf (fields_noNul hb hsig)
-    have hspec := hb.spec
-    simp only [Msg.toSpec] at hspec
-    cases hfs : specFieldsOf m.attrs (T.entries m.cls (hasFds m)) with
-    | none => rw [hfs] at hspec; cases hspec
-    | some fs =>
-      rw [hfs] at hspec
-      simp only [Option.map_some, Option.some.injEq] at hspec
-      have hfields : sm.fields = fs := by rw [← hspec]
-      rw [hfields] at hf
-      exact specFieldsOf_noH m.attrs _ fs hfs f hf hty
-  rw [hb.raw, parse_spec T hT C sm henc m.cls hcls fdsAfter hnoh]
-  have hattrs : ∀ a, (parsedBase (β := β) T m.cls sm fdsAfter).attrs a = plain (m.attrs a) := by
-    intro a
-    simp only [parsedBase]
-    rw [hb.fieldsPy fdsAfter]
-    exact own_attrs T hT m.cls (hasFds m) m.attrs (built_inTable hT hb) a
-  dsimp only
-  rw [hattrs .signature]
-  have hshape := hb.shape .signature
-  rcases hshape with hnone | ⟨sg, hsg⟩
-  · -- signature None
-    rw [hnone]
-    simp only [plain, truthy, Bool.false_eq_true, if_false]
-    refine ⟨_, rfl, rfl, hse, ?_, ?_, hattrs, rfl, hb.hdr.symm, hb.pad.symm, hbo⟩
-    · simp only [parsedBase, hfl, flags_er]; cases m.expectReply <;> simp
-    · simp only [parsedBase, hfl, flags_as]; cases m.autoStart <;> simp
-  · rw [hsg]
-    simp only [plain]
-    cases sg with
-    | nil =>
-      simp only [truthy, List.isEmpty_nil, Bool.not_true, Bool.false_eq_true, if_false]
-      refine ⟨_, rfl, rfl, hse, ?_, ?_, hattrs, rfl, hb.hdr.symm, hb.pad.symm, hbo⟩
-      · simp only [parsedBase, hfl, flags_er]; cases m.expectReply <;> simp
-      · simp only [parsedBase, hfl, flags_as]; cases m.autoStart <;> simp
-    | cons ch cs =>
-      obtain ⟨bytes, hm1, hm2⟩ := hC (ch :: cs) hsg (by simp)
-      -- the bytes are the body of the message
-      have hbody : bytes = m.rawBody := by
-        rcases hb.bodyCase with ⟨ht, _, _⟩ | ⟨sg', fds', hs1, _, hs3, _⟩
-        · rw [← hb.attrs .signature (by decide), hsg] at ht
-          simp [truthy] at ht
-        · rw [← hb.attrs .signature (by decide), hsg] at hs1
-          simp only [PyVal.str.injEq, true_and] at hs1
-          subst hs1
-          rw [← hb.body, hm1] at hs3
-          simp only [Except.ok.injEq, Prod.mk.injEq] at hs3
-          exact hs3.1
-      -- its length fits one byte (it was marshalled as a SIGNATURE)
-      have hlen : ¬ (ch :: cs).length > 255 := by
-        have hwf := hb.wf (fields_noNul hb hsig)
-        have := built_sigLen hT hb (ch :: cs) hsg hwf
-        omega
-      simp only [truthy, List.isEmpty_cons, Bool.not_false, if_true]
-      rw [if_neg hlen, hbo, ← hbody, hen]
-      simp only [decide_true, hm2]
-      refine ⟨_, rfl, rfl, hse, ?_, ?_, hattrs, rfl, hb.hdr.symm, hb.pad.symm, by rw [hbody]; exact hbo⟩
-      · simp only [parsedBase, hfl, flags_er]; cases m.expectReply <;> simp
-      · simp only [parsedBase, hfl, flags_as]; cases m.autoStart <;> simp
-
-
-/-- The value of attribute `a` in a list of known header fields: the field whose code `_hcode` maps to `a`. -/
-def fieldFor (T : Tables) (known : List Field) (a : Attr) : Option HVal :=
-  (known.find? (fun f => lookupAttr T f.1 == some a)).map (·.2)
-
-/-- T4. -/
-theorem parse_foreign {β : Type} (T : Tables) (hT : T.OK) (C : BodyCodec β) (w : SpecMsg) (hw : w.valid = true)
-    (cls : MsgClass) (hcls : w.mtype = T.messageType cls)
-    (known extra : List Field) (hperm : w.fields.Perm (known ++ extra))
-    (hextra : ∀ f ∈ extra, lookupAttr T f.1 = none)
-    (hknown : (known.map (fun f => lookupAttr T f.1)).Nodup)
-    (hsigty : ∀ hv, fieldFor T known .signature = some hv → hv.ty = .g)
-    (fds : Option (List PyVal)) (hfd : ∀ f ∈ w.fields, f.2.ty = .h → fds ≠ none)
-    (decoded : β)
-    (hC : ∀ sg, fieldFor T known .signature = some (.text .g sg) → sg ≠ [] →
-        C.unmarshal sg w.body (decide (w.endian = .little)) fds = .ok decoded) :
-    ∃ m' : Msg β, parseMessage T C (Spec.encodeMsg w) fds = .ok m' ∧
-      m'.cls = cls ∧ m'.serial = w.serial ∧
-      m'.expectReply = decide (w.flags % 2 = 0) ∧ m'.autoStart = decide (w.flags / 2 % 2 = 0) ∧
-      (∀ a, m'.attrs a = match fieldFor T known a with
-                         | some hv => pyOf fds hv
-                         | none => .none) ∧
-      m'.body = (match fieldFor T known .signature with
-                 | some (.text _ (_ :: _)) => some decoded
-                 | _ => none) ∧
-      m'.rawBody = w.body ∧ (m'.rawHeader ++ m'.rawPadding ++ m'.rawBody) = Spec.encodeMsg w := by
-  have henc := SpecMsg.encodable_of_valid w hw
-  have hlc : lookupClass T w.mtype = some cls := by rw [hcls]; exact (hT.mtype cls).2.2
-  rw [parse_spec T hT C w henc cls hlc fds hfd]
-  -- the attributes after the setattr loop
-  have hattrs : ∀ a, (parsedBase (β := β) T cls w fds).attrs a =
-      match fieldFor T known a with
-      | some hv => pyOf fds hv
-      | none => .none := by
-    intro a
-    simp only [parsedBase, fieldFor]
-    cases hfind : known.find? (fun f => lookupAttr T f.1 == some a) with
-    | none =>
-      simp only [Option.map_none]
-      rw [applyFields_none]
-      · rfl
-      · intro x hx hl
-        rw [List.mem_map] at hx
-        obtain ⟨f, hf, rfl⟩ := hx
-        have hf' := (hperm.mem_iff).mp hf
-        rw [List.mem_append] at hf'
-        rcases hf' with hk | he
-        · have := List.find?_eq_none.mp hfind f hk
-          simp only at hl
-          simp [hl] at this
-        · have := hextra f he
-          simp only at hl
-          rw [this] at hl; cases hl
-    | some f0 =>
-      simp only [Option.map_some]
-      have hf0 := List.mem_of_find?_eq_some hfind
-      have hp0 := List.find?_some hfind
-      simp only [beq_iff_eq] at hp0
-      apply applyFields_unique T _ _ a f0.1 (pyOf fds f0.2)
-      · rw [List.mem_map]
-        exact ⟨f0, (hperm.mem_iff).mpr (List.mem_append_left _ hf0), rfl⟩
-      · exact hp0
-      · intro x hx hl
-        rw [List.mem_map] at hx
-        obtain ⟨f, hf, rfl⟩ := hx
-        have hf' := (hperm.mem_iff).mp hf
-        rw [List.mem_append] at hf'
-        rcases hf' with hk | he
-        · simp only at hl
-          have := nodup_map_inj (fun f => lookupAttr T f.1) known hknown f hk f0 hf0 (by rw [hl, hp0])
-          rw [this]
-        · have := hextra f he
-          simp only at hl
-          rw [this] at hl; cases hl
-  have hraw : (parsedBase (β := β) T cls w fds).rawHeader ++ (parsedBase (β := β) T cls w fds).rawPadding ++
-      (parsedBase (β := β) T cls w fds).rawBody = Spec.encodeMsg w := by
-    simp [parsedBase, Spec.encodeMsg]
-  dsimp only
-  have hsigattr := hattrs .signature
-  have hwfall : w.fields.all Field.wf = true := by
-    simp only [SpecMsg.valid, Bool.and_eq_true] at hw
-    exact hw.1.1.2
-  cases hsf : fieldFor T known .signature with
-  | none =>
-    rw [hsf] at hsigattr
-    rw [hsigattr]
-    simp only [truthy, Bool.false_eq_true, if_false]
-    exact ⟨_, rfl, rfl, rfl, rfl, rfl, hattrs, rfl, rfl, hraw⟩
-  | some hv =>
-    rw [hsf] at hsigattr
-    have hty := hsigty hv hsf
-    cases hv with
-    | num c raw =>
-      -- a well-formed `num` value has a fixed-size type, never `g`
-      exfalso
-      simp only [fieldFor] at hsf
-      cases hfind : known.find? (fun f => lookupAttr T f.1 == some Attr.signature) with
-      | none => rw [hfind] at hsf; cases hsf
-      | some f0 =>
-        rw [hfind] at hsf
-        simp only [Option.map_some, Option.some.injEq] at hsf
-        have hf0 := List.mem_of_find?_eq_some hfind
-        have hmem : f0 ∈ w.fields := (hperm.mem_iff).mpr (List.mem_append_left _ hf0)
-        have hwf0 := List.all_eq_true.mp hwfall f0 hmem
-        simp only [Field.wf, Bool.and_eq_true] at hwf0
-        rw [hsf] at hwf0
-        simp only [HVal.ty] at hty
-        subst hty
-        simp [HVal.wf, isText] at hwf0
-    | text c sg =>
-      simp only [HVal.ty] at hty
-      subst hty
-      rw [hsigattr]
-      simp only [pyOf]
-      cases sg with
-      | nil =>
-        simp only [truthy, List.isEmpty_nil, Bool.not_true, Bool.false_eq_true, if_false]
-        exact ⟨_, rfl, rfl, rfl, rfl, rfl, hattrs, rfl, rfl, hraw⟩
-      | cons ch cs =>
-        have hlen : ¬ (ch :: cs).length > 255 := by
-          simp only [fieldFor] at hsf
-          cases hfind : known.find? (fun f => lookupAttr T f.1 == some Attr.signature) with
-          | none => rw [hfind] at hsf; cases hsf
-          | some f0 =>
-            rw [hfind] at hsf
-            simp only [Option.map_some, Option.some.injEq] at hsf
-            have hf0 := List.mem_of_find?_eq_some hfind
-            have hmem : f0 ∈ w.fields := (hperm.mem_iff).mpr (List.mem_append_left _ hf0)
-            have hwf0 := List.all_eq_true.mp hwfall f0 hmem
-            simp only [Field.wf, Bool.and_eq_true] at hwf0
-            rw [hsf] at hwf0
-            simp only [HVal.wf, if_true, Bool.and_eq_true, decide_eq_true_eq] at hwf0
-            omega
-        have hdec := hC (ch :: cs) (by rw [hsf]) (by simp)
-        simp only [truthy, List.isEmpty_cons, Bool.not_false, if_true]
-        rw [if_neg hlen, hdec]
-        exact ⟨_, rfl, rfl, rfl, rfl, rfl, hattrs, rfl, rfl, hraw⟩
-
-
 theorem runValidator_ok {v : Valid.Str → Valid.Outcome} {o : Option Valid.Str} (h : runValidator v o = .ok ()) :
     ∃ s, o = some s ∧ v s = .accept := by
   cases o with
@@ -666,6 +305,707 @@ theorem cannot_construct {β : Type} (T : Tables) (hT : T.OK) (C : BodyCodec β)
     | methodCall a => simp [Call.pre] at hcls
     | methodReturn a => simp [Call.pre] at hcls
     | signal a => simp [Call.pre] at hcls
+
+/-- The header fields of a constructed message address every attribute that is set, through the table. -/
+theorem built_inTable {β : Type} {T : Tables} (hT : T.OK) {C : BodyCodec β} {na : Char → Bool} {maxLen : Nat}
+    {st st' : St} {c : Call β} {m : Msg β} {sm : SpecMsg} (hb : Built T C na maxLen st st' c m sm) :
+    ∀ a, m.attrs a ≠ .none → ∃ ent ∈ T.entries m.cls (hasFds m), ent.1 = a := by
+  intro a hne
+  by_cases ha : a = .unixFds
+  · subst ha
+    have hf : hasFds m = true := by
+      simp only [hasFds, Bool.not_eq_true']
+      cases h : isNone (m.attrs .unixFds) with
+      | false => rfl
+      | true => exact absurd ((isNone_iff _).mp h) hne
+    rw [hf]
+    exact ⟨T.unixFdsEntry, by simp [Tables.entries], hT.fdsEntry.1⟩
+  · rw [hb.attrs a ha] at hne
+    have hin := (Call.preOK c).inTable a hne
+    have hcov := hT.covers c.pre.cls a hin
+    rw [List.mem_map] at hcov
+    obtain ⟨ent, he1, he2⟩ := hcov
+    refine ⟨ent, ?_, he2⟩
+    rw [hb.cls]
+    simp only [Tables.entries]
+    split
+    · exact List.mem_append_left _ he1
+    · exact he1
+
+/-- The signature of a constructed message was marshalled as a SIGNATURE: at most 255 characters. -/
+theorem built_sigLen {β : Type} {T : Tables} (hT : T.OK) {C : BodyCodec β} {na : Char → Bool} {maxLen : Nat}
+    {st st' : St} {c : Call β} {m : Msg β} {sm : SpecMsg} (hb : Built T C na maxLen st st' c m sm)
+    (sg : List Char) (hsg : m.attrs .signature = .str .plain sg) (hwf : sm.fields.all Field.wf = true) :
+    sg.length < 256 := by
+  have hne : m.attrs .signature ≠ .none := by rw [hsg]; intro h; cases h
+  obtain ⟨ent, he1, he2⟩ := built_inTable hT hb .signature hne
+  have hspec := hb.spec
+  simp only [Msg.toSpec] at hspec
+  cases hfs : specFieldsOf m.attrs (T.entries m.cls (hasFds m)) with
+  | none => rw [hfs] at hspec; cases hspec
+  | some fs =>
+    rw [hfs] at hspec
+    simp only [Option.map_some, Option.some.injEq] at hspec
+    have hfields : sm.fields = fs := by rw [← hspec]
+    obtain ⟨f, hf, w, _, hw, hh⟩ := specFieldsOf_has m.attrs _ fs hfs ent he1 (by rw [he2]; exact hne)
+    rw [he2, hsg] at hw
+    simp only [wrapAttr, toStrCls, Except.ok.injEq] at hw
+    subst hw
+    simp only [hvalOf, Option.some.injEq] at hh
+    rw [hfields] at hwf
+    have := List.all_eq_true.mp hwf f hf
+    simp only [Field.wf, Bool.and_eq_true, decide_eq_true_eq] at this
+    rw [← hh] at this
+    simp only [HVal.wf, if_true, Bool.and_eq_true, decide_eq_true_eq] at this
+    exact this.2.2.2
+
+theorem built_fields {β : Type} {T : Tables} {C : BodyCodec β} {na : Char → Bool} {maxLen : Nat} {st st' : St}
+    {c : Call β} {m : Msg β} {sm : SpecMsg} (hb : Built T C na maxLen st st' c m sm) :
+    specFieldsOf m.attrs (T.entries m.cls (hasFds m)) = some sm.fields := by
+  have hspec := hb.spec
+  simp only [Msg.toSpec] at hspec
+  cases hfs : specFieldsOf m.attrs (T.entries m.cls (hasFds m)) with
+  | none => rw [hfs] at hspec; cases hspec
+  | some fs =>
+    rw [hfs] at hspec
+    simp only [Option.map_some, Option.some.injEq] at hspec
+    rw [← hspec]
+
+/-- Every header field of a constructed message has the type the specification's table gives its code. -/
+theorem built_typed {β : Type} {T : Tables} (hT : T.OK) {C : BodyCodec β} {na : Char → Bool} {maxLen : Nat}
+    {st st' : St} {c : Call β} {m : Msg β} {sm : SpecMsg} (hb : Built T C na maxLen st st' c m sm) :
+    (∀ f ∈ sm.fields, Spec.fieldType f.1 = some f.2.ty) ∧ sm.typed = true := by
+  have h := specFieldsOf_typed T hT m.cls (hasFds m) m.attrs hb.shape sm.fields (built_fields hb)
+  refine ⟨h, ?_⟩
+  simp only [SpecMsg.typed, List.all_eq_true]
+  intro f hf
+  rw [h f hf]
+  simp
+
+/-- The attributes whose fields the specification requires are set on a constructed message (the path: when given). -/
+theorem required_present {β : Type} (T : Tables) (hT : T.OK) (C : BodyCodec β) (na : Char → Bool) (maxLen : Nat)
+    (st st' : St) (c : Call β) (m : Msg β) (h : construct T C na maxLen st c = (st', .ok m)) (hp : c.pathGiven) :
+    ∀ a ∈ requiredAttrs m.cls, m.attrs a ≠ .none := by
+  obtain ⟨sm, hb⟩ := construct_ok T hT C na maxLen st st' c m h
+  obtain ⟨_, _, _, _, _, _, hmem, hifc, herr⟩ := cannot_construct T hT C na maxLen st st' c m h
+  have hattr := hb.attrs
+  have hcls := hb.cls
+  intro a ha
+  cases c with
+  | methodCall args =>
+    simp only [Call.pre] at hcls
+    rw [hcls] at ha hmem
+    simp only [requiredAttrs, List.mem_cons, List.not_mem_nil, or_false] at ha
+    rcases ha with rfl | rfl
+    · rw [hattr .path (by decide)]
+      simp only [Call.pathGiven] at hp
+      cases hpa : args.path with
+      | none => exact absurd hpa hp
+      | some pth => simp [Call.pre, setAttr, hpa, strAttr]
+    · obtain ⟨s, hs⟩ := hmem (Or.inl rfl)
+      rw [hs]; intro hc; cases hc
+  | methodReturn args =>
+    simp only [Call.pre] at hcls
+    rw [hcls] at ha
+    simp only [requiredAttrs, List.mem_cons, List.not_mem_nil, or_false] at ha
+    subst ha
+    rw [hattr .replySerial (by decide)]
+    simp [Call.pre, setAttr]
+  | error args =>
+    simp only [Call.pre] at hcls
+    rw [hcls] at ha herr
+    simp only [requiredAttrs, List.mem_cons, List.not_mem_nil, or_false] at ha
+    rcases ha with rfl | rfl
+    · obtain ⟨s, hs⟩ := herr rfl
+      rw [hs]; intro hc; cases hc
+    · rw [hattr .replySerial (by decide)]
+      simp [Call.pre, setAttr]
+  | signal args =>
+    simp only [Call.pre] at hcls
+    rw [hcls] at ha hmem hifc
+    simp only [requiredAttrs, List.mem_cons, List.not_mem_nil, or_false] at ha
+    rcases ha with rfl | rfl | rfl
+    · rw [hattr .path (by decide)]
+      simp only [Call.pathGiven] at hp
+      cases hpa : args.path with
+      | none => exact absurd hpa hp
+      | some pth => simp [Call.pre, setAttr, hpa, strAttr]
+    · obtain ⟨s, hs⟩ := hifc rfl
+      rw [hs]; intro hc; cases hc
+    · obtain ⟨s, hs⟩ := hmem (Or.inr rfl)
+      rw [hs]; intro hc; cases hc
+
+/-- ... hence the header fields the specification requires for the message type are in the field array. -/
+theorem built_required {β : Type} (T : Tables) (hT : T.OK) (C : BodyCodec β) (na : Char → Bool) (maxLen : Nat)
+    (st st' : St) (c : Call β) (m : Msg β) (sm : SpecMsg) (h : construct T C na maxLen st c = (st', .ok m))
+    (hb : Built T C na maxLen st st' c m sm) (hp : c.pathGiven) : sm.hasRequired = true := by
+  have hpres := required_present T hT C na maxLen st st' c m h hp
+  have hmt : sm.mtype = T.messageType m.cls := by rw [hb.smEq, hb.cls]; rfl
+  simp only [SpecMsg.hasRequired, List.all_eq_true, hmt]
+  intro code hcode
+  obtain ⟨ent, he1, he2, he3⟩ := hT.required m.cls code hcode
+  have hent : ent ∈ T.entries m.cls (hasFds m) := by
+    simp only [Tables.entries]
+    split
+    · exact List.mem_append_left _ he1
+    · exact he1
+  obtain ⟨f, hf, w, hf1, _, _⟩ := specFieldsOf_has m.attrs _ sm.fields (built_fields hb) ent hent (hpres ent.1 he3)
+  rw [List.contains_iff_mem, List.mem_map]
+  exact ⟨f, hf, by rw [hf1, he2]⟩
+
+theorem built_valid {β : Type} {T : Tables} (hT : T.OK) {C : BodyCodec β} {na : Char → Bool} {maxLen : Nat}
+    {st st' : St} {c : Call β} {m : Msg β} {sm : SpecMsg} (hb : Built T C na maxLen st st' c m sm)
+    (hsig : SigNoNul c) (hs : 1 ≤ st.nextSerial) :
+    sm.encodable = true ∧
+      (maxLen ≤ Spec.maxMessage → (Spec.fieldArray sm).length ≤ Spec.maxArray → sm.sized = true) := by
+  have hwf := hb.wf (fields_noNul hb hsig)
+  have heq := hb.smEq
+  have hmt : sm.mtype = T.messageType c.pre.cls := by rw [heq]; rfl
+  have hfl : sm.flags = flagsByte c.pre.expectReply c.pre.autoStart := by rw [heq]; rfl
+  have hse : sm.serial = st.nextSerial := by rw [heq]; rfl
+  have hbo : sm.body = m.rawBody := by rw [heq]; rfl
+  have h4 := flagsByte_lt c.pre.expectReply c.pre.autoStart
+  obtain ⟨m1, m2, _⟩ := hT.mtype c.pre.cls
+  refine ⟨?_, ?_⟩
+  · simp only [SpecMsg.encodable, Bool.and_eq_true, decide_eq_true_eq]
+    refine ⟨⟨⟨⟨⟨by omega, by omega⟩, by rw [hse]; exact hb.serialLt⟩, by rw [hbo]; exact hb.bodyLt⟩, hb.arrayLt⟩, hwf⟩
+  · intro hmax harr
+    simp only [SpecMsg.sized, Bool.and_eq_true, decide_eq_true_eq]
+    refine ⟨⟨⟨⟨⟨⟨by omega, by omega⟩, by omega⟩, ⟨by omega, by rw [hse]; exact hb.serialLt⟩⟩, hwf⟩, harr⟩, ?_⟩
+    rw [← hb.raw]
+    exact Nat.le_trans hb.len hmax
+
+/-- T1. -/
+theorem marshal_wellformed {β : Type} (T : Tables) (hT : T.OK) (C : BodyCodec β) (na : Char → Bool) (maxLen : Nat)
+    (hmax : maxLen ≤ Spec.maxMessage) (st st' : St) (c : Call β) (m : Msg β)
+    (hs : 1 ≤ st.nextSerial) (hsig : SigNoNul c)
+    (h : construct T C na maxLen st c = (st', .ok m)) :
+    ∃ sm : SpecMsg, m.toSpec T = some sm ∧
+      m.raw = Spec.fixedPart sm (Spec.fieldArray sm).length ++ Spec.fieldArray sm ++ Spec.headerPad sm ++ m.rawBody ∧
+      m.rawHeader = Spec.fixedPart sm (Spec.fieldArray sm).length ++ Spec.fieldArray sm ∧
+      m.rawPadding = Spec.headerPad sm ∧
+      (Spec.fixedPart sm (Spec.fieldArray sm).length).length = 16 ∧
+      (m.rawHeader ++ m.rawPadding).length % 8 = 0 ∧
+      m.rawPadding.length < 8 ∧ (∀ b ∈ m.rawPadding, b = 0) ∧
+      Spec.fixedPart sm (Spec.fieldArray sm).length =
+        [108, UInt8.ofNat (T.messageType m.cls), UInt8.ofNat (flagsByte m.expectReply m.autoStart), 1]
+          ++ encUInt .little 4 m.rawBody.length ++ encUInt .little 4 m.serial
+          ++ encUInt .little 4 (Spec.fieldArray sm).length ∧
+      T.messageType m.cls < 256 ∧ m.rawBody.length < 4294967296 ∧ (Spec.fieldArray sm).length < 4294967296 ∧
+      m.serial = st.nextSerial ∧ m.serial ≠ 0 ∧ m.serial < 4294967296 ∧ st'.nextSerial = st.nextSerial + 1 ∧
+      sm.fields.map (·.1) = (liveEntries m.attrs (T.entries m.cls (hasFds m))).map (·.2.1) ∧
+      (sm.fields.map (·.1)).Nodup ∧ sm.fields.all Field.wf = true ∧
+      (∀ f ∈ sm.fields, Spec.fieldType f.1 = some f.2.ty) ∧
+      (c.pathGiven → ∀ code ∈ Spec.requiredCodes (T.messageType m.cls), code ∈ sm.fields.map (·.1)) ∧
+      m.raw.length ≤ maxLen ∧
+      (c.pathGiven → (Spec.fieldArray sm).length ≤ Spec.maxArray → Spec.decodeMsg m.raw = some sm) := by
+  obtain ⟨sm, hb⟩ := construct_ok T hT C na maxLen st st' c m h
+  obtain ⟨henc, hval⟩ := built_valid hT hb hsig hs
+  have heq := hb.smEq
+  have hbo : sm.body = m.rawBody := by rw [heq]; rfl
+  have hpadlen : (Spec.headerPad sm).length = padLen 8 (16 + (Spec.fieldArray sm).length) := Spec.headerPad_length sm
+  have hfix := Spec.fixedPart_length sm (Spec.fieldArray sm).length
+  obtain ⟨m1, m2, _⟩ := hT.mtype m.cls
+  have hcodes : sm.fields.map (·.1) = (liveEntries m.attrs (T.entries m.cls (hasFds m))).map (·.2.1) := by
+    have := congrArg (List.map Prod.fst) (hb.fieldsPy none)
+    simpa [List.map_map, Function.comp_def] using this
+  refine ⟨sm, hb.spec, ?_, hb.hdr, hb.pad, hfix, ?_, ?_, ?_, ?_, by omega, hb.bodyLt, hb.arrayLt, hb.serial, ?_, ?_, hb.next,
+    hcodes, ?_, hb.wf (fields_noNul hb hsig), (built_typed hT hb).1, ?_, hb.len, ?_⟩
+  · rw [hb.raw, ← hbo]; simp [Spec.encodeMsg]
+  · rw [hb.hdr, hb.pad]
+    simp only [List.length_append, hfix, hpadlen]
+    exact padLen_aligned 8 _ (by omega)
+  · rw [hb.pad, hpadlen]; exact padLen_lt 8 _ (by omega)
+  · intro b hbm
+    rw [hb.pad] at hbm
+    simp only [Spec.headerPad, zeros, List.mem_replicate] at hbm
+    exact hbm.2
+  · rw [heq]
+    simp [Spec.fixedPart, specOf, Spec.endianByte, Spec.version, hb.cls, hb.er, hb.as_, hb.serial]
+  · rw [hb.serial]; omega
+  · rw [hb.serial]; exact hb.serialLt
+  · rw [hcodes]
+    have hnd := hT.nodupCodes m.cls
+    have hsub : List.Sublist ((liveEntries m.attrs (T.entries m.cls (hasFds m))).map (·.2.1))
+        ((T.entries m.cls true).map (·.2.1)) := by
+      apply List.Sublist.map
+      apply List.Sublist.trans (List.filter_sublist)
+      cases hasFds m with
+      | true => exact List.Sublist.refl _
+      | false => simp only [Tables.entries]; exact List.sublist_append_left _ _
+    exact hsub.nodup hnd
+  · intro hp code hcode
+    have hreq := built_required T hT C na maxLen st st' c m sm h hb hp
+    have hmt : sm.mtype = T.messageType m.cls := by rw [hb.smEq, hb.cls]; rfl
+    simp only [SpecMsg.hasRequired, List.all_eq_true, hmt] at hreq
+    have := hreq code hcode
+    rwa [List.contains_iff_mem] at this
+  · intro hp harr
+    rw [hb.raw]
+    apply Spec.decodeMsg_encodeMsg sm
+    simp only [SpecMsg.valid, Bool.and_eq_true]
+    exact ⟨⟨hval hmax harr, (built_typed hT hb).2⟩, built_required T hT C na maxLen st st' c m sm h hb hp⟩
+
+
+/-- T3. -/
+theorem parse_marshal {β : Type} (T : Tables) (hT : T.OK) (C : BodyCodec β) (na : Char → Bool) (maxLen : Nat)
+    (st st' : St) (c : Call β) (m : Msg β) (hs : 1 ≤ st.nextSerial) (hsig : SigNoNul c)
+    (h : construct T C na maxLen st c = (st', .ok m))
+    (fdsAfter : Option (List PyVal)) (decoded : β)
+    (hC : ∀ sg, m.attrs .signature = .str .plain sg → sg ≠ [] →
+        ∃ bytes fds', C.marshal sg m.body c.oob = .ok (bytes, fds') ∧ C.unmarshal sg bytes true fdsAfter = .ok decoded) :
+    ∃ m' : Msg β, parseMessage T C m.raw fdsAfter = .ok m' ∧
+      m'.cls = m.cls ∧ m'.serial = m.serial ∧ m'.expectReply = m.expectReply ∧ m'.autoStart = m.autoStart ∧
+      (∀ a, m'.attrs a = plain (m.attrs a)) ∧
+      m'.body = (if truthy (m.attrs .signature) then some decoded else none) ∧
+      m'.rawHeader = m.rawHeader ∧ m'.rawPadding = m.rawPadding ∧ m'.rawBody = m.rawBody := by
+  obtain ⟨sm, hb⟩ := construct_ok T hT C na maxLen st st' c m h
+  obtain ⟨henc, _⟩ := built_valid hT hb hsig hs
+  have heq := hb.smEq
+  have hmt : sm.mtype = T.messageType m.cls := by rw [heq, hb.cls]; rfl
+  have hfl : sm.flags = flagsByte m.expectReply m.autoStart := by rw [heq, hb.er, hb.as_]; rfl
+  have hse : sm.serial = m.serial := by rw [heq, hb.serial]; rfl
+  have hbo : sm.body = m.rawBody := by rw [heq]; rfl
+  have hen : sm.endian = .little := by rw [heq]; rfl
+  have hcls : lookupClass T sm.mtype = some m.cls := by rw [hmt]; exact (hT.mtype m.cls).2.2
+  -- no field of an own message is of type `h`
+  have hnoh : ∀ f ∈ sm.fields, f.2.ty = .h → fdsAfter ≠ none := by
+    intro f hf hty
+    exfalso
+    have hwf := hb.wf (fields_noNul hb hsig)
+    have hspec := hb.spec
+    simp only [Msg.toSpec] at hspec
+    cases hfs : specFieldsOf m.attrs (T.entries m.cls (hasFds m)) with
+    | none => rw [hfs] at hspec; cases hspec
+    | some fs =>
+      rw [hfs] at hspec
+      simp only [Option.map_some, Option.some.injEq] at hspec
+      have hfields : sm.fields = fs := by rw [← hspec]
+      rw [hfields] at hf
+      exact specFieldsOf_noH m.attrs _ fs hfs f hf hty
+  rw [hb.raw, parse_spec T hT C sm henc m.cls hcls fdsAfter hnoh]
+  have hattrs : ∀ a, (parsedBase (β := β) T m.cls sm fdsAfter).attrs a = plain (m.attrs a) := by
+    intro a
+    simp only [parsedBase]
+    rw [hb.fieldsPy fdsAfter]
+    exact own_attrs T hT m.cls (hasFds m) m.attrs (built_inTable hT hb) a
+  dsimp only
+  rw [hattrs .signature]
+  have hshape := hb.shape .signature
+  rcases hshape with hnone | ⟨sg, hsg⟩
+  · -- signature None
+    rw [hnone]
+    simp only [plain, truthy, Bool.false_eq_true, if_false]
+    refine ⟨_, rfl, rfl, hse, ?_, ?_, hattrs, rfl, hb.hdr.symm, hb.pad.symm, hbo⟩
+    · simp only [parsedBase, hfl, flags_er]; cases m.expectReply <;> simp
+    · simp only [parsedBase, hfl, flags_as]; cases m.autoStart <;> simp
+  · rw [hsg]
+    simp only [plain]
+    cases sg with
+    | nil =>
+      simp only [truthy, List.isEmpty_nil, Bool.not_true, Bool.false_eq_true, if_false]
+      refine ⟨_, rfl, rfl, hse, ?_, ?_, hattrs, rfl, hb.hdr.symm, hb.pad.symm, hbo⟩
+      · simp only [parsedBase, hfl, flags_er]; cases m.expectReply <;> simp
+      · simp only [parsedBase, hfl, flags_as]; cases m.autoStart <;> simp
+    | cons ch cs =>
+      obtain ⟨bytes, fdsOut, hm1, hm2⟩ := hC (ch :: cs) hsg (by simp)
+      -- the bytes are the body of the message
+      have hbody : bytes = m.rawBody := by
+        rcases hb.bodyCase with ⟨ht, _, _⟩ | ⟨sg', fds', hs1, _, hs3, _⟩
+        · rw [← hb.attrs .signature (by decide), hsg] at ht
+          simp [truthy] at ht
+        · rw [← hb.attrs .signature (by decide), hsg] at hs1
+          simp only [PyVal.str.injEq, true_and] at hs1
+          subst hs1
+          rw [← hb.body, hm1] at hs3
+          simp only [Except.ok.injEq, Prod.mk.injEq] at hs3
+          exact hs3.1
+      -- its length fits one byte (it was marshalled as a SIGNATURE)
+      have hlen : ¬ (ch :: cs).length > 255 := by
+        have hwf := hb.wf (fields_noNul hb hsig)
+        have := built_sigLen hT hb (ch :: cs) hsg hwf
+        omega
+      simp only [truthy, List.isEmpty_cons, Bool.not_false, if_true]
+      rw [if_neg hlen, hbo, ← hbody, hen]
+      simp only [decide_true, hm2]
+      refine ⟨_, rfl, rfl, hse, ?_, ?_, hattrs, rfl, hb.hdr.symm, hb.pad.symm, by rw [hbody]; exact hbo⟩
+      · simp only [parsedBase, hfl, flags_er]; cases m.expectReply <;> simp
+      · simp only [parsedBase, hfl, flags_as]; cases m.autoStart <;> simp
+
+
+/-- The value of attribute `a` in a list of known header fields: the field whose code `_hcode` maps to `a`. -/
+def fieldFor (T : Tables) (known : List Field) (a : Attr) : Option HVal :=
+  (known.find? (fun f => lookupAttr T f.1 == some a)).map (·.2)
+
+/-- The `setattr` loop on any permutation of `known ++ extra` (no attribute addressed twice among `known`, codes of
+`extra` unknown to `_hcode`): every attribute ends up with the value of the known field that addresses it. -/
+theorem applyFields_perm (T : Tables) (fields known extra : List Field) (hperm : fields.Perm (known ++ extra))
+    (hextra : ∀ f ∈ extra, lookupAttr T f.1 = none)
+    (hknown : (known.map (fun f => lookupAttr T f.1)).Nodup) (fds : Option (List PyVal)) (a : Attr) :
+    applyFields T noAttrs (fields.map fun f => (f.1, pyOf fds f.2)) a =
+      match fieldFor T known a with
+      | some hv => pyOf fds hv
+      | none => .none := by
+  simp only [fieldFor]
+  cases hfind : known.find? (fun f => lookupAttr T f.1 == some a) with
+  | none =>
+    simp only [Option.map_none]
+    rw [applyFields_none]
+    · rfl
+    · intro x hx hl
+      rw [List.mem_map] at hx
+      obtain ⟨f, hf, rfl⟩ := hx
+      have hf' := (hperm.mem_iff).mp hf
+      rw [List.mem_append] at hf'
+      rcases hf' with hk | he
+      · have := List.find?_eq_none.mp hfind f hk
+        simp only at hl
+        simp [hl] at this
+      · have := hextra f he
+        simp only at hl
+        rw [this] at hl; cases hl
+  | some f0 =>
+    simp only [Option.map_some]
+    have hf0 := List.mem_of_find?_eq_some hfind
+    have hp0 := List.find?_some hfind
+    simp only [beq_iff_eq] at hp0
+    apply applyFields_unique T _ _ a f0.1 (pyOf fds f0.2)
+    · rw [List.mem_map]
+      exact ⟨f0, (hperm.mem_iff).mpr (List.mem_append_left _ hf0), rfl⟩
+    · exact hp0
+    · intro x hx hl
+      rw [List.mem_map] at hx
+      obtain ⟨f, hf, rfl⟩ := hx
+      have hf' := (hperm.mem_iff).mp hf
+      rw [List.mem_append] at hf'
+      rcases hf' with hk | he
+      · simp only at hl
+        have := nodup_map_inj (fun f => lookupAttr T f.1) known hknown f hk f0 hf0 (by rw [hl, hp0])
+        rw [this]
+      · have := hextra f he
+        simp only at hl
+        rw [this] at hl; cases hl
+
+/-- T4. -/
+theorem parse_foreign {β : Type} (T : Tables) (hT : T.OK) (C : BodyCodec β) (w : SpecMsg) (hw : w.valid = true)
+    (cls : MsgClass) (hcls : w.mtype = T.messageType cls)
+    (known extra : List Field) (hperm : w.fields.Perm (known ++ extra))
+    (hextra : ∀ f ∈ extra, lookupAttr T f.1 = none)
+    (hknown : (known.map (fun f => lookupAttr T f.1)).Nodup)
+    (fds : Option (List PyVal)) (hfd : ∀ f ∈ w.fields, f.2.ty = .h → fds ≠ none)
+    (decoded : β)
+    (hC : ∀ sg, fieldFor T known .signature = some (.text .g sg) → sg ≠ [] →
+        C.unmarshal sg w.body (decide (w.endian = .little)) fds = .ok decoded) :
+    ∃ m' : Msg β, parseMessage T C (Spec.encodeMsg w) fds = .ok m' ∧
+      m'.cls = cls ∧ m'.serial = w.serial ∧
+      m'.expectReply = decide (w.flags % 2 = 0) ∧ m'.autoStart = decide (w.flags / 2 % 2 = 0) ∧
+      (∀ a, m'.attrs a = match fieldFor T known a with
+                         | some hv => pyOf fds hv
+                         | none => .none) ∧
+      m'.body = (match fieldFor T known .signature with
+                 | some (.text _ (_ :: _)) => some decoded
+                 | _ => none) ∧
+      m'.rawBody = w.body ∧ (m'.rawHeader ++ m'.rawPadding ++ m'.rawBody) = Spec.encodeMsg w := by
+  have henc := SpecMsg.encodable_of_valid w hw
+  have hlc : lookupClass T w.mtype = some cls := by rw [hcls]; exact (hT.mtype cls).2.2
+  rw [parse_spec T hT C w henc cls hlc fds hfd]
+  -- the attributes after the setattr loop
+  have hattrs : ∀ a, (parsedBase (β := β) T cls w fds).attrs a =
+      match fieldFor T known a with
+      | some hv => pyOf fds hv
+      | none => .none := fun a => applyFields_perm T w.fields known extra hperm hextra hknown fds a
+  have hraw : (parsedBase (β := β) T cls w fds).rawHeader ++ (parsedBase (β := β) T cls w fds).rawPadding ++
+      (parsedBase (β := β) T cls w fds).rawBody = Spec.encodeMsg w := by
+    simp [parsedBase, Spec.encodeMsg]
+  dsimp only
+  have hsigattr := hattrs .signature
+  have hwfall : w.fields.all Field.wf = true := by
+    have hsz := SpecMsg.sized_of_valid w hw
+    simp only [SpecMsg.sized, Bool.and_eq_true] at hsz
+    exact hsz.1.1.2
+  -- the signature field of a valid message has the type the specification's table demands: SIGNATURE
+  have hsigty : ∀ hv, fieldFor T known .signature = some hv → hv.ty = .g := by
+    intro hv hfv
+    simp only [fieldFor] at hfv
+    cases hfind : known.find? (fun f => lookupAttr T f.1 == some Attr.signature) with
+    | none => rw [hfind] at hfv; cases hfv
+    | some f0 =>
+      rw [hfind] at hfv
+      simp only [Option.map_some, Option.some.injEq] at hfv
+      have hf0 := List.mem_of_find?_eq_some hfind
+      have hp0 := List.find?_some hfind
+      simp only [beq_iff_eq] at hp0
+      have hmem : f0 ∈ w.fields := (hperm.mem_iff).mpr (List.mem_append_left _ hf0)
+      have hty : w.typed = true := by
+        simp only [SpecMsg.valid, Bool.and_eq_true] at hw; exact hw.1.2
+      have h1 := List.all_eq_true.mp hty f0 hmem
+      have h2 := hT.hcodeTypes _ (lookupAttr_mem T _ _ hp0)
+      simp only [attrType] at h2
+      rw [h2] at h1
+      simp only [beq_iff_eq] at h1
+      rw [← hfv]; exact h1
+  cases hsf : fieldFor T known .signature with
+  | none =>
+    rw [hsf] at hsigattr
+    rw [hsigattr]
+    simp only [truthy, Bool.false_eq_true, if_false]
+    exact ⟨_, rfl, rfl, rfl, rfl, rfl, hattrs, rfl, rfl, hraw⟩
+  | some hv =>
+    rw [hsf] at hsigattr
+    have hty := hsigty hv hsf
+    cases hv with
+    | num c raw =>
+      -- a well-formed `num` value has a fixed-size type, never `g`
+      exfalso
+      simp only [fieldFor] at hsf
+      cases hfind : known.find? (fun f => lookupAttr T f.1 == some Attr.signature) with
+      | none => rw [hfind] at hsf; cases hsf
+      | some f0 =>
+        rw [hfind] at hsf
+        simp only [Option.map_some, Option.some.injEq] at hsf
+        have hf0 := List.mem_of_find?_eq_some hfind
+        have hmem : f0 ∈ w.fields := (hperm.mem_iff).mpr (List.mem_append_left _ hf0)
+        have hwf0 := List.all_eq_true.mp hwfall f0 hmem
+        simp only [Field.wf, Bool.and_eq_true] at hwf0
+        rw [hsf] at hwf0
+        simp only [HVal.ty] at hty
+        subst hty
+        simp [HVal.wf, isText] at hwf0
+    | text c sg =>
+      simp only [HVal.ty] at hty
+      subst hty
+      rw [hsigattr]
+      simp only [pyOf]
+      cases sg with
+      | nil =>
+        simp only [truthy, List.isEmpty_nil, Bool.not_true, Bool.false_eq_true, if_false]
+        exact ⟨_, rfl, rfl, rfl, rfl, rfl, hattrs, rfl, rfl, hraw⟩
+      | cons ch cs =>
+        have hlen : ¬ (ch :: cs).length > 255 := by
+          simp only [fieldFor] at hsf
+          cases hfind : known.find? (fun f => lookupAttr T f.1 == some Attr.signature) with
+          | none => rw [hfind] at hsf; cases hsf
+          | some f0 =>
+            rw [hfind] at hsf
+            simp only [Option.map_some, Option.some.injEq] at hsf
+            have hf0 := List.mem_of_find?_eq_some hfind
+            have hmem : f0 ∈ w.fields := (hperm.mem_iff).mpr (List.mem_append_left _ hf0)
+            have hwf0 := List.all_eq_true.mp hwfall f0 hmem
+            simp only [Field.wf, Bool.and_eq_true] at hwf0
+            rw [hsf] at hwf0
+            simp only [HVal.wf, if_true, Bool.and_eq_true, decide_eq_true_eq] at hwf0
+            omega
+        have hdec := hC (ch :: cs) (by rw [hsf]) (by simp)
+        simp only [truthy, List.isEmpty_cons, Bool.not_false, if_true]
+        rw [if_neg hlen, hdec]
+        exact ⟨_, rfl, rfl, rfl, rfl, rfl, hattrs, rfl, rfl, hraw⟩
+
+
+theorem nodup_map_some {α : Type} : ∀ (l : List α), l.Nodup → (l.map some).Nodup
+  | [], _ => by simp
+  | x :: t, h => by
+    simp only [List.nodup_cons] at h
+    simp only [List.map_cons, List.nodup_cons, List.mem_map, not_exists, not_and]
+    exact ⟨fun y hy hxy => h.1 (Option.some.inj hxy ▸ hy), nodup_map_some t h.2⟩
+
+/-- No attribute is addressed twice by the fields of a constructed message. -/
+theorem built_knownNodup {β : Type} {T : Tables} (hT : T.OK) {C : BodyCodec β} {na : Char → Bool} {maxLen : Nat}
+    {st st' : St} {c : Call β} {m : Msg β} {sm : SpecMsg} (hb : Built T C na maxLen st st' c m sm) :
+    (sm.fields.map (fun f => lookupAttr T f.1)).Nodup := by
+  have hcodes : sm.fields.map (·.1) = (liveEntries m.attrs (T.entries m.cls (hasFds m))).map (·.2.1) := by
+    have := congrArg (List.map Prod.fst) (hb.fieldsPy none)
+    simpa [List.map_map, Function.comp_def] using this
+  have h1 : sm.fields.map (fun f => lookupAttr T f.1) = (sm.fields.map (·.1)).map (lookupAttr T) := by
+    simp [List.map_map, Function.comp_def]
+  rw [h1, hcodes, List.map_map]
+  have h2 : (liveEntries m.attrs (T.entries m.cls (hasFds m))).map (lookupAttr T ∘ fun ent => ent.2.1) =
+      (liveEntries m.attrs (T.entries m.cls (hasFds m))).map (fun ent => some ent.1) := by
+    apply List.map_congr_left
+    intro ent he
+    have he1 := (mem_liveEntries.mp he).1
+    exact (hT.hcode m.cls ent (entries_sub T m.cls _ ent he1)).2
+  rw [h2]
+  have hnd := hT.nodup m.cls
+  have hsub : List.Sublist ((liveEntries m.attrs (T.entries m.cls (hasFds m))).map (·.1))
+      ((T.entries m.cls true).map (·.1)) := by
+    apply List.Sublist.map
+    apply List.Sublist.trans (List.filter_sublist)
+    cases hasFds m with
+    | true => exact List.Sublist.refl _
+    | false => simp only [Tables.entries]; exact List.sublist_append_left _ _
+  have hnd2 := hsub.nodup hnd
+  have h3 : (liveEntries m.attrs (T.entries m.cls (hasFds m))).map (fun ent => some ent.1) =
+      ((liveEntries m.attrs (T.entries m.cls (hasFds m))).map (·.1)).map some := by
+    simp [List.map_map, Function.comp_def]
+  rw [h3]
+  exact nodup_map_some _ hnd2
+
+/-- **The bytes another implementation would produce for the same message.**  Let `m` be a constructed message and
+`sm` the specification message it stands for.  For ANY valid message `w` of the same type whose field list is a
+permutation of `sm`'s fields plus fields with unknown codes - any byte order, any serial, flags and body of its own -
+`parseMessage (Spec.encodeMsg w)` returns the class of `m` and every attribute of `m` (as plain values). -/
+theorem parse_foreign_of_constructed {β : Type} (T : Tables) (hT : T.OK) (C : BodyCodec β) (na : Char → Bool)
+    (maxLen : Nat) (st st' : St) (c : Call β) (m : Msg β) (h : construct T C na maxLen st c = (st', .ok m)) :
+    ∃ sm : SpecMsg, m.toSpec T = some sm ∧
+      ∀ (w : SpecMsg) (extra : List Field), w.valid = true → w.mtype = sm.mtype →
+        w.fields.Perm (sm.fields ++ extra) → (∀ f ∈ extra, lookupAttr T f.1 = none) →
+        ∀ (fds : Option (List PyVal)), (∀ f ∈ w.fields, f.2.ty = .h → fds ≠ none) →
+        ∀ (decoded : β), (∀ sg, fieldFor T sm.fields .signature = some (.text .g sg) → sg ≠ [] →
+            C.unmarshal sg w.body (decide (w.endian = .little)) fds = .ok decoded) →
+        ∃ m' : Msg β, parseMessage T C (Spec.encodeMsg w) fds = .ok m' ∧
+          m'.cls = m.cls ∧ m'.serial = w.serial ∧
+          m'.expectReply = decide (w.flags % 2 = 0) ∧ m'.autoStart = decide (w.flags / 2 % 2 = 0) ∧
+          (∀ a, m'.attrs a = plain (m.attrs a)) ∧
+          m'.body = (if truthy (m.attrs .signature) then some decoded else none) ∧ m'.rawBody = w.body := by
+  obtain ⟨sm, hb⟩ := construct_ok T hT C na maxLen st st' c m h
+  refine ⟨sm, hb.spec, ?_⟩
+  intro w extra hw hmt hperm hextra fds hfd decoded hC
+  have hmt' : w.mtype = T.messageType m.cls := by rw [hmt, hb.smEq, hb.cls]; rfl
+  have hknown := built_knownNodup hT hb
+  obtain ⟨m', p1, p2, p3, p4, p5, p6, p7, p8, _⟩ :=
+    parse_foreign T hT C w hw m.cls hmt' sm.fields extra hperm hextra hknown fds hfd decoded hC
+  -- the known fields of `sm` say exactly what the attributes of `m` are
+  have hview : ∀ a, (match fieldFor T sm.fields a with
+                     | some hv => pyOf fds hv
+                     | none => PyVal.none) = plain (m.attrs a) := by
+    intro a
+    have e1 := applyFields_perm T sm.fields sm.fields [] (by simp) (by intro f hf; cases hf) hknown fds a
+    rw [← e1, hb.fieldsPy fds]
+    exact own_attrs T hT m.cls (hasFds m) m.attrs (built_inTable hT hb) a
+  refine ⟨m', p1, p2, p3, p4, p5, fun a => by rw [p6 a, hview a], ?_, p8⟩
+  -- the body: decided by the signature field, which is `m`'s signature attribute
+  rw [p7]
+  have hsigv := hview .signature
+  -- the field that addresses `signature` is of type SIGNATURE
+  have hsigty : ∀ hv, fieldFor T sm.fields .signature = some hv → hv.ty = .g := by
+    intro hv hfv
+    simp only [fieldFor] at hfv
+    cases hfind : sm.fields.find? (fun f => lookupAttr T f.1 == some Attr.signature) with
+    | none => rw [hfind] at hfv; cases hfv
+    | some f0 =>
+      rw [hfind] at hfv
+      simp only [Option.map_some, Option.some.injEq] at hfv
+      have hf0 := List.mem_of_find?_eq_some hfind
+      have hp0 := List.find?_some hfind
+      simp only [beq_iff_eq] at hp0
+      have h1 := (built_typed hT hb).1 f0 hf0
+      have h2 := hT.hcodeTypes _ (lookupAttr_mem T _ _ hp0)
+      simp only [attrType] at h2
+      rw [h2] at h1
+      rw [← hfv]; exact (Option.some.inj h1).symm
+  cases hf : fieldFor T sm.fields .signature with
+  | none =>
+    rw [hf] at hsigv
+    rcases hb.shape .signature with hnone | ⟨sg, hsg⟩
+    · rw [hnone]; simp [truthy]
+    · rw [hsg] at hsigv; simp [plain] at hsigv
+  | some hv =>
+    have hty := hsigty hv hf
+    rw [hf] at hsigv
+    cases hv with
+    | num cc raw =>
+      simp only [HVal.ty] at hty
+      subst hty
+      simp only [pyOf] at hsigv
+      rcases hb.shape .signature with hnone | ⟨sg, hsg⟩
+      · rw [hnone]; simp [truthy]
+      · rw [hsg] at hsigv; simp [plain] at hsigv
+    | text cc s =>
+      simp only [pyOf] at hsigv
+      rcases hb.shape .signature with hnone | ⟨sg, hsg⟩
+      · rw [hnone] at hsigv; simp [plain] at hsigv
+      · rw [hsg] at hsigv ⊢
+        simp only [plain, PyVal.str.injEq, true_and] at hsigv
+        subst hsigv
+        cases s <;> simp [truthy]
+
+/-- The constructed object is the message the ARGUMENTS describe: the class of the constructor, the requested flags,
+every argument under its own attribute (None stays None, nothing else is set), `reply_serial` as given, the body
+argument; and `rawBody` is what the body codec returned for (signature, body, oobFDs) - empty without a non-empty
+signature - with `unix_fds` = the number of descriptors the codec collected (absent when none). -/
+theorem constructed_from_arguments {β : Type} (T : Tables) (hT : T.OK) (C : BodyCodec β) (na : Char → Bool)
+    (maxLen : Nat) (st st' : St) (c : Call β) (m : Msg β) (h : construct T C na maxLen st c = (st', .ok m)) :
+    (∀ a, c = .methodCall a →
+       m.cls = .methodCall ∧ m.expectReply = a.expectReply ∧ m.autoStart = a.autoStart ∧
+       m.attrs .path = strAttr a.path ∧ m.attrs .member = strAttr a.member ∧
+       m.attrs .interface = strAttr a.interface ∧ m.attrs .destination = strAttr a.destination ∧
+       m.attrs .signature = strAttr a.signature ∧
+       m.attrs .errorName = .none ∧ m.attrs .replySerial = .none ∧ m.attrs .sender = .none) ∧
+    (∀ a, c = .methodReturn a →
+       m.cls = .methodReturn ∧ m.expectReply = true ∧ m.autoStart = true ∧
+       m.attrs .replySerial = .int .uint32 a.replySerial ∧ m.attrs .destination = strAttr a.destination ∧
+       m.attrs .signature = strAttr a.signature ∧
+       m.attrs .path = .none ∧ m.attrs .member = .none ∧ m.attrs .interface = .none ∧
+       m.attrs .errorName = .none ∧ m.attrs .sender = .none) ∧
+    (∀ a, c = .error a →
+       m.cls = .error ∧ m.expectReply = true ∧ m.autoStart = true ∧
+       m.attrs .errorName = strAttr a.errorName ∧ m.attrs .replySerial = .int .uint32 a.replySerial ∧
+       m.attrs .destination = strAttr a.destination ∧ m.attrs .signature = strAttr a.signature ∧
+       m.attrs .sender = strAttr a.sender ∧
+       m.attrs .path = .none ∧ m.attrs .member = .none ∧ m.attrs .interface = .none) ∧
+    (∀ a, c = .signal a →
+       m.cls = .signal ∧ m.expectReply = true ∧ m.autoStart = true ∧
+       m.attrs .path = strAttr a.path ∧ m.attrs .member = strAttr a.member ∧
+       m.attrs .interface = strAttr a.interface ∧ m.attrs .destination = strAttr a.destination ∧
+       m.attrs .signature = strAttr a.signature ∧
+       m.attrs .errorName = .none ∧ m.attrs .replySerial = .none ∧ m.attrs .sender = .none) ∧
+    m.body = c.body ∧
+    (match c.signature with
+     | some (ch :: cs) =>
+       ∃ fds', C.marshal (ch :: cs) c.body c.oob = .ok (m.rawBody, fds') ∧
+         m.attrs .unixFds = (match fds' with
+                             | some (fd :: l) => .int .plain (((fd :: l).length : Nat) : Nat)
+                             | _ => .none)
+     | _ => m.rawBody = [] ∧ m.attrs .unixFds = .none) := by
+  obtain ⟨sm, hb⟩ := construct_ok T hT C na maxLen st st' c m h
+  have hattr := hb.attrs
+  have hbody : c.pre.body = c.body := by cases c <;> rfl
+  have hall : ∀ a, a ≠ Attr.unixFds → m.attrs a = c.pre.attrs a := hattr
+  refine ⟨?_, ?_, ?_, ?_, by rw [hb.body, hbody], ?_⟩
+  · intro a hc; subst hc
+    simp only [hb.cls, hb.er, hb.as_, hattr .path (by decide), hattr .member (by decide),
+      hattr .interface (by decide), hattr .destination (by decide), hattr .signature (by decide),
+      hattr .errorName (by decide), hattr .replySerial (by decide), hattr .sender (by decide)]
+    simp [Call.pre, setAttr, noAttrs]
+  · intro a hc; subst hc
+    simp only [hb.cls, hb.er, hb.as_, hattr .path (by decide), hattr .member (by decide),
+      hattr .interface (by decide), hattr .destination (by decide), hattr .signature (by decide),
+      hattr .errorName (by decide), hattr .replySerial (by decide), hattr .sender (by decide)]
+    simp [Call.pre, setAttr, noAttrs]
+  · intro a hc; subst hc
+    simp only [hb.cls, hb.er, hb.as_, hattr .path (by decide), hattr .member (by decide),
+      hattr .interface (by decide), hattr .destination (by decide), hattr .signature (by decide),
+      hattr .errorName (by decide), hattr .replySerial (by decide), hattr .sender (by decide)]
+    simp [Call.pre, setAttr, noAttrs]
+  · intro a hc; subst hc
+    simp only [hb.cls, hb.er, hb.as_, hattr .path (by decide), hattr .member (by decide),
+      hattr .interface (by decide), hattr .destination (by decide), hattr .signature (by decide),
+      hattr .errorName (by decide), hattr .replySerial (by decide), hattr .sender (by decide)]
+    simp [Call.pre, setAttr, noAttrs]
+  · have hsig := pre_signature c
+    rcases hb.bodyCase with ⟨ht, hr, hf⟩ | ⟨sg, fds', hs1, hne, hs3, hs4⟩
+    · rw [hsig] at ht
+      cases hc : c.signature with
+      | none => exact ⟨hr, hf⟩
+      | some sg =>
+        cases sg with
+        | nil => exact ⟨hr, hf⟩
+        | cons ch cs => rw [hc] at ht; simp [strAttr, truthy] at ht
+    · rw [hsig] at hs1
+      cases hc : c.signature with
+      | none => rw [hc] at hs1; cases hs1
+      | some sg' =>
+        rw [hc] at hs1
+        simp only [strAttr, PyVal.str.injEq, true_and] at hs1
+        subst hs1
+        cases sg' with
+        | nil => exact absurd rfl hne
+        | cons ch cs =>
+          rw [hbody] at hs3
+          refine ⟨fds', hs3, ?_⟩
+          rcases hs4 with ⟨fd, l, hfd, hu⟩ | ⟨hfd, hu⟩
+          · subst hfd; exact hu
+          · rcases hfd with rfl | rfl <;> exact hu
 
 /-- T2. -/
 theorem serial_fresh {β : Type} (T : Tables) (hT : T.OK) (C : BodyCodec β) (na : Char → Bool) (maxLen : Nat)
